@@ -34,6 +34,7 @@ from ruamel.yaml.comments import CommentedSet  # noqa: E402
 
 NEW_VALUES = [9, 2.5, True, "new v", "zeta", 0, False, "b", None,
               9007199254740993, -1700000000123456789, 10.0, 5.0, -0.5,
+              1e16, 1e22, -3e20, 0.00002, -1.5e-7, 12345.678, 1.2e16,
               "two words here", "line one\nline two"]
 FORMATS = {"str": ["default", "dquote", "squote", "bare", "default",
                    "folded", "literal"],
@@ -616,7 +617,8 @@ class Session:
             text = "true" if value else "false"
         else:
             text = str(value)
-        out = ["-a", text]
+        # (argparse takes "-3e+20" for an option; "--value=" is unambiguous)
+        out = ["--value=" + text] if text.startswith("-") else ["-a", text]
         if fmt and fmt != "default":
             out += ["-F", fmt]
         return out
